@@ -729,9 +729,9 @@ class _Gen:
             k = self.rng.choice(ks)
         er = self.rng.random() < 0.6
         self.shut(self.backend.pop(k))
-        if er:
-            self.last_args = ("default",)
-            self.executor = self.new_mgr(default_args=True)
+        if er:  # re-configured with P[k]'s own arguments (/repo 7487594; with bare defaults before)
+            self.last_args = ("args", k % 2)
+            self.executor = self.new_mgr()
             self.backend[k] = self.executor
         self.ops.append(dict(op="abort", k=k, ensure_ready=er))
         return True
@@ -825,6 +825,63 @@ def gen_program(rng, big=False):
     return g.result()
 
 
+def gen_shared_program(rng, big=False):
+    """Several `Parallel` objects with equal executor arguments: ONE reusable executor, ONE manager, one context (folder) per
+    object; their calls interleave, workers keep memmaps of earlier calls (of any context) across later calls, the same
+    object is called again while files of its earlier calls are still mapped.  What the manager remembers per manager
+    (`_released_files`, `_cached_temp_folders`) and the reducer per executor (`_temporary_memmaped_filenames`) is exercised
+    across contexts here; the free and the call-structured programs mostly stay inside one context at a time."""
+    g = _Gen(rng)
+    par = rng.choice([0, 0, 1])
+    ks = [k for k in g.loky_ks if k % 2 == par]
+    if len(ks) < 2:
+        par, ks = 0, [0, 2]
+    g.hot = ks
+    if rng.random() < 0.5:  # all objects enter first (nested / long-lived managed blocks), calls follow
+        for k in ks:
+            g.configure(k)
+    n_calls = rng.choice([3, 4, 5, 6] + ([8, 10] if big else []))
+    for _ in range(n_calls):
+        if not g.alive:
+            break
+        k = rng.choice(ks)
+        if k not in g.backend or rng.random() < 0.8:
+            g.configure(k)
+        want = rng.choice([1, 1, 2])
+        for _ in range(want):
+            if g.n_alive(g.backend.get(k)) < want:
+                g.spawn(k)
+        for _ in range(rng.choice([1, 1, 2, 3])):
+            if rng.random() < 0.5:  # an array no other call has sent yet
+                aid = len(g.arrays) + 1
+                a = dict(id=aid, memmap_backed=False, hasobject=False, nbytes=g.mx + rng.choice([1, 8, 1000]))
+                g.arrays[aid] = a
+                g.reduce(k, a)
+            else:
+                g.reduce(k)
+            if rng.random() < 0.9:
+                g.load()
+            if rng.random() < 0.3:
+                g.drop()
+        r = rng.random()
+        if r < 0.9:
+            g.terminate(k)
+        elif r < 0.94:
+            g.exec_terminate()
+        if rng.random() < 0.25:
+            g.drop()
+        if rng.random() < 0.08:
+            g.noise()
+    while g.holdings and rng.random() < 0.7:
+        g.drop()
+    r = rng.random()
+    if r < 0.5:
+        g.parent_end(False)
+    elif r < 0.65:
+        g.parent_end(True)
+    return g.result()
+
+
 def _cfg(k):
     return dict(op="configure", k=k)
 
@@ -853,10 +910,18 @@ def corpus_programs():
         P([_cfg(0), _cfg(2), dict(op="spawn", k=0), red(0, A), red(2, A), red(2, B), ld(0, 0), ld(0, 0), ld(0, 0), dict(op="terminate", k=0),
            dict(op="drop", i=0), dict(op="terminate", k=2), dict(op="drop", i=0), dict(op="drop", i=0), dict(op="terminate", k=2),
            dict(op="exitParent")]),
+        # one manager, two contexts, clean-ups interleaved while a worker keeps a file of the first: clean 0 (extra reference of A
+        # given back, the worker's stays), a whole call of 2 (its file comes and goes / stays), 0 entered and cleaned again
+        P([_cfg(0), _cfg(2), dict(op="spawn", k=0), red(0, A), ld(0, 0), dict(op="terminate", k=0), red(2, B), ld(0, 0),
+           dict(op="drop", i=1), dict(op="terminate", k=2), _cfg(0), dict(op="terminate", k=0), _cfg(2), dict(op="terminate", k=2),
+           _cfg(0), dict(op="terminate", k=0), dict(op="drop", i=0), dict(op="exitParent")]),
+        P([_cfg(1), dict(op="spawn", k=1), red(1, A), ld(0, 0), dict(op="terminate", k=1), _cfg(3), red(3, A), red(3, B), ld(0, 0),
+           dict(op="terminate", k=3), _cfg(1), red(1, B), dict(op="terminate", k=1), dict(op="drop", i=1), _cfg(3),
+           dict(op="terminate", k=3), _cfg(1), dict(op="terminate", k=1), dict(op="drop", i=0), dict(op="killParent")]),
         # arguments change: the executor is replaced, its workers leave; the stale backend terminates on the old manager
         P([_cfg(0), dict(op="spawn", k=0), red(0, A), ld(0, 0), _cfg(1), dict(op="spawn", k=1), red(1, A), ld(1, 0),
            dict(op="terminate", k=0), dict(op="terminate", k=1), dict(op="childKill", c=1), dict(op="exitParent")]),
-        # abort: workers killed, pending pickle lost, force clean-up, re-configured with default arguments
+        # abort: workers killed, pending pickle lost, force clean-up, re-configured with the Parallel object's arguments
         P([_cfg(0), dict(op="spawn", k=0), red(0, A), red(0, B), ld(0, 0), dict(op="abort", k=0, ensure_ready=True), red(0, A),
            dict(op="spawn", k=0), red(0, _arr(3, 2000000)), ld(1, 0), dict(op="terminate", k=0), dict(op="drop", i=0), dict(op="exitParent")]),
         P([_cfg(0), dict(op="spawn", k=0), red(0, A), ld(0, 0), dict(op="childKill", c=0), dict(op="abort", k=0, ensure_ready=False),
@@ -904,3 +969,8 @@ def explore(ctx, res, programs, salt, workers=8):
 def programs_for(ctx, n, salt, big=False):
     rng = ctx.rng("client-" + salt)
     return [gen_program(rng, big=big) for _ in range(n)]
+
+
+def shared_programs_for(ctx, n, salt, big=False):
+    rng = ctx.rng("client-shared-" + salt)
+    return [gen_shared_program(rng, big=big) for _ in range(n)]
